@@ -25,12 +25,11 @@ var stringPool = []string{
 var expFloatRe = regexp.MustCompile(`^[-+]?(\.[0-9]+|[0-9]+(\.[0-9]*)?)[eE][-+]?[0-9]+$`)
 var infNanRe = regexp.MustCompile(`^([-+]?\.(inf|Inf|INF)|\.(nan|NaN|NAN))$`)
 
-// Exotic reports string values on which the YAML writer used by SaveAsYaml (goccy/go-yaml) and the
-// reader used by Load (viper, yaml.v3) are known to disagree; they go through `savex`, whose
-// outcome the model does not predict (the monitor classifies the cause).
-func Exotic(s string) bool {
-	return strings.Contains(s, "\r") || s == "?" || strings.HasPrefix(s, "? ") || expFloatRe.MatchString(s) || infNanRe.MatchString(s)
-}
+// Exotic reports string values of the pool that the YAML writer used by SaveAsYaml (goccy/go-yaml)
+// and the reader used by Load (viper, yaml.v3) do not preserve. (The Lean model predicts what comes
+// back for them - Model/ConfigYaml.lean - so they go through the same `save` op as every other
+// value; this predicate only keeps them out of places that need an ordinary value.)
+func Exotic(s string) bool { return yamlCause(s) != "" }
 
 func safeStrings() []string {
 	var out []string
@@ -42,7 +41,78 @@ func safeStrings() []string {
 	return out
 }
 
-var exoticPool = []string{"1e3", "1e+21", "12e4", "00e1", "5E-2", ".inf", "-.inf", ".nan", ".NaN", "?", "? a", "cr\rlf", "\r", "end\r"}
+// yamlClass draws one string value of class k (0..nYamlClasses-1) of values on which writer and
+// reader disagree - or look as if they might. Every class stays inside the domain the model was
+// validated on (at most 15 significant digits, decimal exponent at most 250, no tab, no blank next
+// to a line break, CR and LF never in one value).
+const nYamlClasses = 12
+
+func yamlClass(r *hx.Rng, k int) string {
+	digits := func(n int, set string) string {
+		b := make([]byte, n)
+		for i := range b {
+			b[i] = set[r.Intn(len(set))]
+		}
+		return string(b)
+	}
+	sign := func() string { return []string{"", "", "+", "-"}[r.Intn(4)] }
+	us := func(s string) string { // sprinkle an underscore (never first)
+		if len(s) > 1 && r.Chance(25) {
+			i := 1 + r.Intn(len(s)-1)
+			return s[:i] + "_" + s[i:]
+		}
+		return s
+	}
+	word := func() string {
+		return []string{"a", "ns", "x-1", "it's", "k=v", "ünï", "a b", "0x1F", "1.5e3", "?a", "a?", "-a", "日本", "v1.2.3", "a:b"}[r.Intn(15)]
+	}
+	switch k {
+	case 0: // float with exponent and no dot: 12e4, -5E-2, 00e1, 1_0e1
+		return us(sign() + digits(1+r.Intn(4), "0123456789") + []string{"e", "E"}[r.Intn(2)] + []string{"", "+", "-"}[r.Intn(3)] + digits(1+r.Intn(2), "0123456789"))
+	case 1:
+		return []string{".inf", ".Inf", ".INF", "+.inf", "+.Inf", "+.INF", "-.inf", "-.Inf", "-.INF", ".nan", ".NaN", ".NAN"}[r.Intn(12)]
+	case 2: // upper-case radix prefix
+		switch r.Intn(3) {
+		case 0:
+			return us(sign() + "0X" + digits(1+r.Intn(8), "0123456789abcdefABCDEF"))
+		case 1:
+			return us(sign() + "0O" + digits(1+r.Intn(8), "01234567"))
+		}
+		return us(sign() + "0B" + digits(1+r.Intn(12), "01"))
+	case 3: // lower-case radix prefix with an inner sign
+		if r.Bool() {
+			return "0o" + []string{"+", "-"}[r.Intn(2)] + digits(1+r.Intn(6), "01234567")
+		}
+		return "0b" + []string{"+", "-"}[r.Intn(2)] + digits(1+r.Intn(10), "01")
+	case 4: // leading zero, not octal
+		return us(sign() + "0" + digits(r.Intn(3), "0123456789") + []string{"8", "9"}[r.Intn(2)] + digits(r.Intn(3), "0123456789"))
+	case 5: // date with a one-digit month or day (valid: Load fails; month/day out of range: a string)
+		y := digits(4, "0123456789")
+		m := []string{"1", "9", "01", "12", "0", "13", "00"}[r.Intn(7)]
+		d := []string{"1", "9", "28", "0", "32", "05"}[r.Intn(6)]
+		if len(m) == 2 && len(d) == 2 {
+			d = "7"
+		}
+		return y + "-" + m + "-" + d
+	case 6: // complex-key indicator
+		return []string{"?", "? " + word(), "? "}[r.Intn(2)]
+	case 7: // control characters
+		c := []string{"\x00", "\x01", "\x1b", "\x7f", "\u0080", "\u009f", "\x0b", "\x1f"}[r.Intn(8)]
+		return []string{c, "a" + c, c + "b", "a" + c + "b", "#" + c, "'" + c}[r.Intn(6)]
+	case 8: // CR as the only line break
+		n := 1 + r.Intn(3)
+		var parts []string
+		for i := 0; i < n; i++ {
+			parts = append(parts, []string{"cr", "lf", "a b", "", "x", "-", "?"}[r.Intn(7)])
+		}
+		return strings.Join(parts, "\r") + strings.Repeat("\r", r.Intn(4))
+	case 9: // LF as the only line break
+		return []string{"\n", "a\nb", "a\n", "a\n\n", "\na", "\n\n", "?\nb", "a\n\nb"}[r.Intn(8)]
+	case 10: // look like one of the above and are not: quoted by the writer, or strings for the reader too
+		return []string{"0x1F", "1.5e3", "017", "2001-01-01", "-", "1e3 ", "12e4#", "0X", "0XG", "0o8", "09a", "_09", "_1e3", "1e", "e3", "+-1e3", "2001-13-1", "2001-1-0", "?a", "a ? b", ".Nan", ".infx", "0b+2", "0O8"}[r.Intn(24)]
+	}
+	return word()
+}
 
 func uintPool(bits int) []string {
 	out := []string{"0", "1", "2", "7", "1000", "4294967296"}
@@ -259,6 +329,49 @@ func (g *gen) genesisAt(at int, cid string, ih uint64, t string, off int, pa str
 	fmt.Fprintf(g.w, "genesis at=%d cid=%s ih=%d t=%s off=%d pa=%s\n", at, hexS(cid), ih, t, off, pa)
 }
 
+// encodingClasses: the values encoding/json does NOT write back equal - or refuses to write: years
+// outside 0..9999 (in the value's own zone), zone offsets of 24 h and more, zone offsets with
+// seconds (the instant shifts), chain ids that are not valid UTF-8 (U+FFFD) - and their neighbours
+// on the good side, plus chain ids that need every kind of JSON escape.
+func (g *gen) encodingClasses() {
+	r, w := g.r, g.w
+	a := hx.Hex(r.Bytes(20))
+	op := func(cid string, t string, off int, offs int, pa string) {
+		fmt.Fprintf(w, "genesis cid=%s ih=%d t=%s off=%d offs=%d pa=%s\n", hexS(cid), 1+r.Intn(5), t, off, offs, pa)
+	}
+	fmt.Fprintln(w, "reset")
+	const y0, y10k = int64(-62167219200), int64(253402300800) // 0000-01-01T00:00:00Z, 10000-01-01T00:00:00Z
+	for _, c := range []struct {
+		sec int64
+		off int
+	}{{y0, 0}, {y0 - 1, 0}, {y0 - 1, 1}, {y0, -1}, {y0 + 3600, -60}, {y0 + 3599, -60}, {y10k - 1, 0}, {y10k, 0}, {y10k - 1, 1}, {y10k - 60, 1},
+		{y10k + 3600, -61}, {y10k + 3600, -60}, {y0 - 400*86400, 0}, {y10k + 400*86400, 0}, {-62135596800, 0}, {0, 0}, {-1, 0}} {
+		op("c", fmt.Sprintf("%d.%d", c.sec, []int{0, 1, 500000000}[r.Intn(3)]), c.off, 0, a)
+	}
+	// zone offsets: up to 23:59:59 fine, 24:00 refused; seconds dropped
+	for _, c := range [][2]int{{1439, 0}, {1439, 59}, {1440, 0}, {-1439, -59}, {-1440, 0}, {2000, 0}, {60, 30}, {-60, -30}, {0, 30}, {0, -1}, {0, 59}, {330, 1}, {-210, -59}} {
+		op("c", "1700000000.5", c[0], c[1], a)
+	}
+	// the zero time in a zone with seconds: Validate refuses it, the file denotes another instant
+	op("c", "zero", 0, 30, a)
+	op("c", "zero", 60, -1, a)
+	op("c", fmt.Sprintf("%d.0", int64(zeroUnix)+30), 0, 30, a) // valid; its wall clock reads 00:01:00+00:00:30
+	// chain ids: invalid UTF-8, and every kind of escape
+	for _, cid := range []string{"a\xffb", "\xc3(", "\xe2\x82", "\xe2\x82\xac", "\xed\xa0\x80", "\xf0\x9f\x98\x80", "\xf4\x90\x80\x80", "\xc0\xaf", "\x80", "ok\xf0\x9f", "\xef\xbf\xbd",
+		"q\"b\\s/", "<>&", "\x00\x01\x08\x0c\n\r\t\x1f\x7f", "\u2028\u2029\u0085\ufeff", "é日本😀", "\\u0041", "tab\there"} {
+		op(cid, "1700000000.0", 0, 0, a)
+	}
+	// proposer addresses of every length modulo 3, fractions of every length
+	for n := 0; n <= 7; n++ {
+		pa := "-"
+		if n > 0 {
+			pa = hx.Hex(r.Bytes(n))
+		}
+		op("c", fmt.Sprintf("1700000000.%d", []int{0, 1, 10, 120000000, 999999999, 100, 123456789, 500000}[n]), 0, 0, pa)
+	}
+	op("c", "1700000000.0", 0, 0, "nil")
+}
+
 // samePath: genesis documents of different encoded lengths saved to the SAME path - longer first,
 // then shorter (by many bytes and by exactly one byte), then longer again - with a load after every
 // save, a second load later, a second path that must not be disturbed, and invalid documents
@@ -319,9 +432,12 @@ func (g *gen) randGenesis(at int) {
 	if r.Chance(8) {
 		ih = 0
 	}
-	// instants whose local rendering stays within years 0..9999
+	// instants whose local rendering stays within years 0..9999 (mostly)
 	lo, hi := int64(zeroUnix), int64(253402300799-15*3600)
 	sec := lo + int64(r.U64()%uint64(hi-lo))
+	if r.Chance(4) { // outside what RFC 3339 can print: Save refuses
+		sec = []int64{-62167219200 - 1 - int64(r.Intn(1000000)), 253402300800 + int64(r.Intn(1000000))}[r.Intn(2)]
+	}
 	if r.Chance(30) {
 		sec = 1700000000 + int64(r.Intn(100000000))
 	}
@@ -341,11 +457,18 @@ func (g *gen) randGenesis(at int) {
 	default:
 		pa = hx.Hex(r.Bytes(32))
 	}
+	extra := ""
+	if r.Chance(6) {
+		extra = fmt.Sprintf(" offs=%d", []int{30, -30, 1, 59, -59}[r.Intn(5)])
+	}
+	if r.Chance(5) {
+		cid += string([]byte{[]byte{0xff, 0xc3, 0x80, 0xe2}[r.Intn(4)]})
+	}
 	if at > 0 {
-		g.genesisAt(at, cid, ih, t, off, pa)
+		fmt.Fprintf(g.w, "genesis at=%d cid=%s ih=%d t=%s off=%d%s pa=%s\n", at, hexS(cid), ih, t, off, extra, pa)
 		return
 	}
-	g.genesisOp(cid, ih, t, off, pa)
+	fmt.Fprintf(g.w, "genesis cid=%s ih=%d t=%s off=%d%s pa=%s\n", hexS(cid), ih, t, off, extra, pa)
 }
 
 // pickFrom: a value of the list outside `not` (when there is one)
@@ -537,11 +660,42 @@ func Gen(r *hx.Rng, tier string, w io.Writer) {
 			fmt.Fprintf(w, "save set=%s\n", showPairs([]pair{{f.Go, p[i]}}))
 		}
 		if f.Kind == "string" {
-			for _, i := range r.Perm(len(exoticPool))[:saves] {
-				fmt.Fprintf(w, "savex set=%s\n", showPairs([]pair{{f.Go, exoticPool[i]}}))
+			// values the YAML writer/reader pair does not preserve (and look-alikes): predicted by the model
+			for i := 0; i < saves; i++ {
+				fmt.Fprintf(w, "save set=%s\n", showPairs([]pair{{f.Go, yamlClass(r, r.Intn(nYamlClasses))}}))
 			}
 		}
 	}
+	// every class of values the YAML pair does not preserve, in every run, on one string option each
+	// (several draws per class), then two such values in one configuration
+	var strOpts []Field
+	for _, f := range opts {
+		if f.Kind == "string" {
+			strOpts = append(strOpts, f)
+		}
+	}
+	if len(strOpts) > 0 {
+		fmt.Fprintln(w, "reset")
+		for _, v := range []string{"12e4", "1e3", ".inf", "cr\rlf", "\r", "end\r", "?", "? a", "09", "0X1F", "0o+17", "2001-1-1", "a\x01b", "\n"} {
+			fmt.Fprintf(w, "save set=%s\n", showPairs([]pair{{strOpts[r.Intn(len(strOpts))].Go, v}}))
+		}
+		draws := 3
+		if tier == "thorough" {
+			draws = 25
+		}
+		for k := 0; k < nYamlClasses; k++ {
+			for i := 0; i < draws; i++ {
+				fmt.Fprintf(w, "save set=%s\n", showPairs([]pair{{strOpts[r.Intn(len(strOpts))].Go, yamlClass(r, k)}}))
+			}
+		}
+		for i := 0; i < draws*2 && len(strOpts) > 1; i++ {
+			a, b := strOpts[r.Intn(len(strOpts))], strOpts[r.Intn(len(strOpts))]
+			if a.Go != b.Go {
+				fmt.Fprintf(w, "save set=%s\n", showPairs([]pair{{a.Go, yamlClass(r, r.Intn(nYamlClasses))}, {b.Go, yamlClass(r, r.Intn(nYamlClasses))}}))
+			}
+		}
+	}
+
 	// whole configurations: the defaults, every option at the zero value of its kind, every option
 	// at a non-default value, every group (Go struct) at zero while the rest keeps its default
 	fmt.Fprintln(w, "reset")
@@ -660,6 +814,7 @@ func Gen(r *hx.Rng, tier string, w io.Writer) {
 	g.genesisOp("c", 1, "1700000000.5", 0, "-")
 	g.genesisOp("", 0, "zero", 0, "nil")
 	g.genesisOp("c", math.MaxUint64, "0.0", 840, a32)
+	g.encodingClasses()
 	g.samePath()
 	for i := 0; i < nGenesis; i++ {
 		if i%20 == 0 {
